@@ -182,6 +182,10 @@ Renamable == [][\A to, from \in Keys :
                   (lastop'.o = "rename" /\ lastop'.k = to /\ lastop'.k2 = from /\ to # from /\ from \in DOMAIN meta) =>
                     (from \notin DOMAIN meta' /\ to \in DOMAIN meta' /\ meta'[to] = meta[from])]_vars
 
+\* Point refines its kind abstraction (PointKinds, against which executions over arbitrary values are validated)
+PK == INSTANCE PointKinds WITH fieldk <- [x \in DOMAIN fields |-> fields[x].k], tagged <- DOMAIN tags
+KindsRefined == [][PK!Step(lastop'.o, lastop'.k, lastop'.k2, lastop'.v.k, lastop'.T)]_<<meta, fields, tags>>
+
 StateRec == [meta |-> meta, fields |-> fields, tags |-> tags, meas |-> meas]
 \* A transition is canonical when every key the operation does not name is a bystander in its initial
 \* condition (or absent) and the measurement is still the initial one: these are all replayed; the others
